@@ -6,8 +6,9 @@ import MgpuModel.C10BuddyX
 
 Transcription of `amd/driver/internal/{memoryallocator,device,devicememstateinterface}.go`,
 `amd/driver/{api,distributor,context}.go` and `Driver.preparePageForMigration`, as the code is
-*after* the three `fix:` commits of this property (Free releases every page of the allocation;
-Remap/AllocatePageWithGivenVAddr record the owning device; removeFreedBuffers filters).
+*after* the `fix:` commits of this property (Free releases every page of the allocation;
+Remap/AllocatePageWithGivenVAddr record the owning device; removeFreedBuffers filters; Remap / Distribute give
+the physical page they replace back to its device — `remapLoopOld` … `runOld` keep the code before that repair).
 The allocator's mirror `vAddrToPageMapping` is keyed by the virtual address only, exactly as in Go.
 A Go panic is a `Fault`; it ends the history (`Except`).  Core Lean only.
 -/
@@ -77,6 +78,9 @@ structure State where
   pt : List Page                 -- vm.PageTable: keyed by (pid, vaddr)
   ctxs : List Ctx
   npid : Nat
+  leaked : Nat := 0              -- GHOST (no Go counterpart, never read by `step`): physical pages replaced in a
+                                 -- page-table entry and not given back (AllocatePageWithGivenVAddr / migration;
+                                 -- Remap when the allocator's record of the address belongs to another process)
 deriving Repr
 
 /-! ## page table (Akita `vm.pageTableImpl`, modelled) -/
@@ -248,6 +252,20 @@ def freeVAddrs (s : State) (ptr : Nat) : List Nat :=
 def free (s : State) (ptr : Nat) : Except Fault State :=
   removePages (freeVAddrs s ptr) { s with npages := (ptr, 0) :: s.npages }
 
+/-- the end of one iteration of the loop of allocateMultiplePagesWithGivenVAddrs (repaired): the physical page the
+page table named before goes back (`addSinglePAddr`) to the device that owns it — when the allocator's record
+`replaced` of the virtual address (read BEFORE it was overwritten; the record is keyed by the virtual address only)
+exists and belongs to the calling process. Otherwise the replaced page is not given back (ghost `leaked`). -/
+def releaseReplaced (s : State) (pid : Nat) (replaced : Option Page) : Except Fault State :=
+  match replaced with
+  | some old =>
+    if old.pid = pid then
+      match devOf s.devs old.paddr with
+      | none => .error .noDevice
+      | some d => .ok { s with pool := { s.pool with frees := s.pool.frees.modify d (· ++ [old.paddr]) } }
+    else .ok { s with leaked := s.leaked + 1 }
+  | none => .ok { s with leaked := s.leaked + 1 }
+
 /-- the loop of allocateMultiplePagesWithGivenVAddrs -/
 def remapLoop (pid : Nat) (unified : Bool) : List Nat → List Nat → State → Except Fault State
   | v :: vs, p :: ps, s =>
@@ -257,7 +275,10 @@ def remapLoop (pid : Nat) (unified : Bool) : List Nat → List Nat → State →
       let pg : Page := { pid := pid, vaddr := v, paddr := p, dev := dev, unified := unified, migrating := false }
       match ptUpdate s.pt pg with
       | .error e => .error e
-      | .ok pt' => remapLoop pid unified vs ps { s with pt := pt', mirror := (v, pg) :: s.mirror }
+      | .ok pt' =>
+        match releaseReplaced { s with pt := pt', mirror := (v, pg) :: s.mirror } pid (lookup s.mirror v) with
+        | .error e => .error e
+        | .ok s1 => remapLoop pid unified vs ps s1
   | _, _, s => .ok s
 
 def remapVAddrs (ps addr bytes : Nat) : List Nat :=
@@ -281,7 +302,9 @@ def allocGiven (s : State) (pid d v : Nat) (unified : Bool) : Except Fault (Page
       let pg : Page := { pid := pid, vaddr := v, paddr := p, dev := dev, unified := unified, migrating := false }
       match ptUpdate s.pt pg with
       | .error e => .error e
-      | .ok pt' => .ok (pg, { s with pool := pool', pt := pt', mirror := (v, pg) :: s.mirror })
+      | .ok pt' =>
+        -- the replaced page is NOT given back (the page migration controller still reads it): ghost `leaked`
+        .ok (pg, { s with pool := pool', pt := pt', mirror := (v, pg) :: s.mirror, leaked := s.leaked + 1 })
 
 /-- Driver.preparePageForMigration (gpu = zero-based GPU index) -/
 def prepareMigration (s : State) (pid v gpu : Nat) : Except Fault ((Nat × Nat) × State) :=
@@ -482,7 +505,7 @@ def run : State → List Op → Except Fault State
 /-- driver.Builder.Build + RegisterGPU: page size, CPU and GPU sizes in bytes -/
 def initState (ps cpu : Nat) (gpus : List Nat) : State :=
   let s0 : State := { ps := ps, total := ps, devs := [], pool := { frees := [], nexts := [] }, cursors := [],
-                      mirror := [], npages := [], pt := [], ctxs := [], npid := 0 }
+                      mirror := [], npages := [], pt := [], ctxs := [], npid := 0, leaked := 0 }
   gpus.foldl (fun s g => registerDevice s .gpu g []) (registerDevice s0 .cpu cpu [])
 
 /-! ## conservation of physical pages (derived quantities: not part of `dump`, no effect on `step`) -/
@@ -497,33 +520,80 @@ def livePages (s : State) : List Nat := s.pt.map (·.paddr)
 def lostPages (all : List Nat) (s : State) : List Nat :=
   all.filter fun p => !(s.pool.frees.flatten.contains p) && !((livePages s).contains p)
 
-/-- the number of virtual pages an operation re-homes when it succeeds: a fresh physical page is taken for a
-virtual page whose page-table entry is overwritten in place (`pageTable.Update`), the page it was mapped to is
-neither returned to a free list nor remembered anywhere -/
-def rehomed (s : State) : Op → Nat
-  | .remap _ addr bytes _ => (remapVAddrs s.ps addr bytes).length
-  | .dist _ addr bytes ids =>
-    if ids.length = 1 then 0
-    else ((distPlan s.ps addr bytes ids.length).map fun r => (remapVAddrs s.ps r.1 r.2.1).length).sum
-  | .mig _ _ _ => 1
-  | .apg _ _ _ _ => 1
-  | _ => 0
+/-- an operation that gives back (or keeps) every physical page it handles: everything except
+AllocatePageWithGivenVAddr and page migration, whose replaced page is still read by the page migration controller -/
+def Op.keepsPages : Op → Bool
+  | .mig _ _ _ => false
+  | .apg _ _ _ _ => false
+  | _ => true
 
-/-- `run` with a ghost counter: the number of virtual pages re-homed so far -/
-def runR : State → Nat → List Op → Except Fault (State × Nat)
-  | s, k, [] => .ok (s, k)
-  | s, k, op :: ops =>
-    match step s op with
-    | .error e => .error e
-    | .ok (_, s') => runR s' (k + rehomed s op) ops
-
-/-- an operation that never re-homes a page -/
+/-- an operation that overwrites no page-table entry in place -/
 def Op.noRehome : Op → Bool
   | .remap _ _ _ _ => false
   | .dist _ _ _ _ => false
   | .mig _ _ _ => false
   | .apg _ _ _ _ => false
   | _ => true
+
+/-! ## the code before the repair of the Remap leak (kept for the `_before_fix` witnesses): the loop of
+allocateMultiplePagesWithGivenVAddrs overwrote the entry and never gave the replaced page back -/
+
+def remapLoopOld (pid : Nat) (unified : Bool) : List Nat → List Nat → State → Except Fault State
+  | v :: vs, p :: ps, s =>
+    match devOf s.devs p with
+    | none => .error .noDevice
+    | some dev =>
+      let pg : Page := { pid := pid, vaddr := v, paddr := p, dev := dev, unified := unified, migrating := false }
+      match ptUpdate s.pt pg with
+      | .error e => .error e
+      | .ok pt' => remapLoopOld pid unified vs ps { s with pt := pt', mirror := (v, pg) :: s.mirror, leaked := s.leaked + 1 }
+  | _, _, s => .ok s
+
+def remapOld (s : State) (pid addr bytes d : Nat) : Except Fault State :=
+  let vs := remapVAddrs s.ps addr bytes
+  match allocMulti s.devs s.pool d vs.length with
+  | .error e => .error e
+  | .ok (ps, pool') => remapLoopOld pid false vs ps { s with pool := pool' }
+
+def remapAllOld (pid : Nat) (ids : List Nat) : List (Nat × Nat × Nat) → State → Except Fault State
+  | [], s => .ok s
+  | (a, b, i) :: rest, s =>
+    match remapOld s pid a b (ids.getD i 0) with
+    | .error e => .error e
+    | .ok s' => remapAllOld pid ids rest s'
+
+def distributeOld (s : State) (pid addr bytes : Nat) (ids : List Nat) : Except Fault (List Nat × State) :=
+  if ids.length = 1 then .ok ([bytes], s)
+  else if addr % s.ps ≠ 0 then .error .unaligned
+  else if ids.length = 0 then .error .divzero
+  else
+    match remapAllOld pid ids (distPlan s.ps addr bytes ids.length) s with
+    | .error e => .error e
+    | .ok s' => .ok (distBytes s.ps bytes ids.length, s')
+
+def stepOld (s : State) : Op → Except Fault (Res × State)
+  | .remap c addr bytes d =>
+    match s.ctxs[c]? with
+    | none => .error .badOp
+    | some cx =>
+      match remapOld s cx.pid addr bytes d with
+      | .error e => .error e
+      | .ok s' => .ok (.ok, s')
+  | .dist c addr bytes ids =>
+    match s.ctxs[c]? with
+    | none => .error .badOp
+    | some cx =>
+      match distributeOld s cx.pid addr bytes ids with
+      | .error e => .error e
+      | .ok (bs, s') => .ok (.bytes bs, s')
+  | op => step s op
+
+def runOld : State → List Op → Except Fault State
+  | s, [] => .ok s
+  | s, op :: ops =>
+    match stepOld s op with
+    | .error e => .error e
+    | .ok (_, s') => runOld s' ops
 
 /-! ## line protocol -/
 
@@ -591,19 +661,18 @@ def runTrace (verbose : Bool) : State → List (List String) → List String →
         let o := if verbose then r.str ++ " " ++ d else r.str ++ " #" ++ toHex (fnvStr d)
         runTrace verbose s' ts (o :: acc) d
 
-/-- `c10 lost l2= cpu= gpus= ; op ; …` lines: after every step the ghost counter of re-homed pages and the
-physical pages that are neither free nor mapped -/
-def runLost (all : List Nat) : State → Nat → List (List String) → List String → List String
-  | _, _, [], acc => acc.reverse
-  | s, k, t :: ts, acc =>
+/-- `c10 lost l2= cpu= gpus= ; op ; …` lines: after every step the ghost counter of physical pages that were
+replaced and not given back, and the physical pages that are neither free nor mapped -/
+def runLost (all : List Nat) : State → List (List String) → List String → List String
+  | _, [], acc => acc.reverse
+  | s, t :: ts, acc =>
     match parseOp t with
     | none => ("bad-op" :: acc).reverse
     | some op =>
       match step s op with
       | .error e => (e.str :: acc).reverse
       | .ok (_, s') =>
-        let k' := k + rehomed s op
-        runLost all s' k' ts (s!"k={k'} lost={joinWith "," ((lostPages all s').map toHex)}" :: acc)
+        runLost all s' ts (s!"k={s'.leaked} lost={joinWith "," ((lostPages all s').map toHex)}" :: acc)
 
 def handleLost (first : String) (rest : List String) : String :=
   let t := words first
@@ -611,7 +680,7 @@ def handleLost (first : String) (rest : List String) : String :=
   | some l2, some cpu, some gpus =>
     let ps := 2 ^ l2
     let s0 := initState ps (cpu * ps) (gpus.map (· * ps))
-    joinWith " ; " (runLost (allPages ps (cpu * ps) (gpus.map (· * ps))) s0 0 (rest.map words) [])
+    joinWith " ; " (runLost (allPages ps (cpu * ps) (gpus.map (· * ps))) s0 (rest.map words) [])
   | _, _, _ => "bad"
 
 /-- `c10 reg l2= cpub=<hex bytes> gpub=<hex bytes>,…`: Build + RegisterGPU with sizes given in BYTES (not
